@@ -90,7 +90,7 @@ CHECKS = {
   'val_runs': {'quick': 2, 'thorough': 6},   # every harness is validated with 12/40 runs in its own property's check
   'pre_cmd': 'sh engine/tests/run.sh',     # engine regression tests: 22 tiny C programs with known verdicts (detectors, merges, pointer provenance)
   'explanation': 'Memory-safety and undefined-behaviour obligations checked by the symbolic engine on the real code of the other properties\' harnesses (property assertions disabled with -DVS_NO_PROPERTY), i.e. on every automaton / history / diagram of those universes: null, dangling-stack, freed and out-of-bounds loads and stores; free of non-heap or interior pointers; double free; new/delete[]/free mismatch; division by zero; shift >= width; signed overflow of nsw arithmetic; a branch, switch, address or size that depends on uninitialised memory; abort/terminate/failed libstdc++ assertion; unexpected exception; reaching LLVM unreachable; indirect call to a non-function.  A self-test harness plants a heap overflow, a use after free, a branch on uninitialised memory and a double free behind input-dependent conditions; each must be reported and must reproduce on the native ASan/UBSan (valgrind for the uninitialised read) twin.  Harnesses re-run: ' + ', '.join(_covered),
-  'bounds': {'quick': 'up to 3 queries per harness of every other claimed property (from their quick universes)', 'thorough': 'up to 6 queries per harness (their thorough universes)'},
+  'bounds': {'quick': 'up to 3 queries per harness of every other claimed property (from their quick universes); plus: all 8 selections of the explicit inclusion checker on 1+2 over {a/0,b/0,f/1}, 8 of its queries under the heap model that reuses released addresses, the simulation engine with 67 chain-shaped filler states, the upward simulation on every (also untrimmed) automaton over 3 x {a/0,f/1}, the finite-automata simulation entry points, and 65 queries that call the rarely used public entry points of the four automaton classes and ExplicitLTS one by one (api_misc: default-parameter CheckInclusion, AddTransition(Transition), BuildStateIndex, Reduce(ReduceParam), ToString, every LoadFromString / LoadFromAutDesc / DumpToString / DumpToAutDesc overload, SetExistingStateStart, AddTransition with SymbolicVarAsgn cubes, GetCandidateTree, GetTransMTBDDForTuple, move construction, iterator copies, computeSimulation())', 'thorough': 'up to 6 queries per harness (their thorough universes)'},
   'outside': 'code not reached by any harness (per-file list in DESIGN.md); behaviours that need a particular malloc address pattern, container reallocation order or rehash beyond the sizes reached; bit-precise definedness; data races; allocation failure',
   'assumptions': ['the uninitialised-memory check is value-based: a value that provably does not influence the branch/address is not reported'],
   'harnesses': _harn,
